@@ -1,5 +1,104 @@
-//! C08 — well-formedness of compiled linear models; shares the generator and correspondence of C01.
+//! C08 — well-formedness of compiled linear models; shares the generator and correspondence of C01 and adds
+//! (a) the missing-bounds error contract and (b) a metamorphic aux-collision check, both on the implementation.
 use crate::case::Case;
+use crate::gen_model::{self, ModelCfg, VarDecl};
+use crate::rng::Rng;
+use crate::sx;
+use rooc::model_transformer::{Constraint, Exp, Model};
+use rooc::{BinOp, Comparison, LinearizationError, Linearizer, OptimizationType, VariableType};
+
+fn rename(e: &Exp, from: &str, to: &str) -> Exp {
+    let b = |x: &Exp| Box::new(rename(x, from, to));
+    match e {
+        Exp::Number(_) => e.clone(),
+        Exp::Variable(n) => Exp::Variable(if n == from { to.to_string() } else { n.clone() }),
+        Exp::Abs(x) => Exp::Abs(b(x)),
+        Exp::Not(x) => Exp::Not(b(x)),
+        Exp::UnOp(op, x) => Exp::UnOp(*op, b(x)),
+        Exp::Min(es) => Exp::Min(es.iter().map(|x| rename(x, from, to)).collect()),
+        Exp::Max(es) => Exp::Max(es.iter().map(|x| rename(x, from, to)).collect()),
+        Exp::And(es) => Exp::And(es.iter().map(|x| rename(x, from, to)).collect()),
+        Exp::Or(es) => Exp::Or(es.iter().map(|x| rename(x, from, to)).collect()),
+        Exp::Xor(x, y) => Exp::Xor(b(x), b(y)),
+        Exp::Implies(x, y) => Exp::Implies(b(x), b(y)),
+        Exp::Iff(x, y) => Exp::Iff(b(x), b(y)),
+        Exp::BinOp(op, x, y) => Exp::BinOp(*op, b(x), b(y)),
+    }
+}
+
+/// a model that certainly makes the compiler mint the auxiliary `aux`, plus a USER variable with exactly that
+/// name and the auxiliary's type. Either compilation fails with VarAlreadyDeclared, or (if the user variable is
+/// declared but the auxiliary is not needed after all) the output has as many variables as the same model with the
+/// user variable renamed to a harmless name.
+fn collision_case(r: &mut Rng) -> Case {
+    let v = |n: &str| Exp::Variable(n.into());
+    let k = |x: f64| Exp::Number(x);
+    let (aux, aux_ty, trigger): (&str, VariableType, Exp) = match r.below(8) {
+        0 => ("$or_0", VariableType::Boolean, Exp::BinOp(BinOp::Add, Box::new(Exp::Or(vec![v("a"), v("b")])), Box::new(v("y")))),
+        1 => ("$and_0", VariableType::Boolean, Exp::BinOp(BinOp::Add, Box::new(Exp::And(vec![v("a"), v("b")])), Box::new(v("y")))),
+        2 => ("$xor_0", VariableType::Boolean, Exp::BinOp(BinOp::Add, Box::new(Exp::Xor(Box::new(v("a")), Box::new(v("b")))), Box::new(v("y")))),
+        3 => ("$iff_0", VariableType::Boolean, Exp::BinOp(BinOp::Add, Box::new(Exp::Iff(Box::new(v("a")), Box::new(v("b")))), Box::new(v("y")))),
+        4 => ("$implies_0", VariableType::Boolean, Exp::BinOp(BinOp::Add, Box::new(Exp::Implies(Box::new(v("a")), Box::new(v("b")))), Box::new(v("y")))),
+        5 => ("$abs_0", VariableType::NonNegativeReal(0.0, 3.0), Exp::BinOp(BinOp::Add, Box::new(Exp::Abs(Box::new(v("z")))), Box::new(v("y")))),
+        6 => ("$max_0", VariableType::Real(-3.0, 3.0), Exp::BinOp(BinOp::Add, Box::new(Exp::Max(vec![v("z"), v("y")])), Box::new(k(0.0)))),
+        _ => ("$abs_0_positive", VariableType::Boolean, Exp::BinOp(BinOp::Add, Box::new(Exp::Abs(Box::new(v("z")))), Box::new(v("y")))),
+    };
+    let user_ty = if r.chance(3, 4) { aux_ty } else { VariableType::IntegerRange(0, 1) };
+    let ds = vec![
+        VarDecl { name: "a".into(), ty: VariableType::Boolean }, VarDecl { name: "b".into(), ty: VariableType::Boolean },
+        VarDecl { name: "y".into(), ty: VariableType::Real(-3.0, 3.0) }, VarDecl { name: "z".into(), ty: VariableType::Real(-3.0, 3.0) },
+        VarDecl { name: aux.into(), ty: user_ty },
+    ];
+    // exact context so that the exact lowering (and its selector / sign auxiliaries) is needed
+    let cons = vec![
+        Constraint::new(trigger, Comparison::Equal, k(1.0), "t".into()),
+        Constraint::new(Exp::BinOp(BinOp::Add, Box::new(v(aux)), Box::new(v("y"))), Comparison::LessOrEqual, k(2.0), "u".into()),
+    ];
+    let m = gen_model::build(OptimizationType::Max, v("y"), cons.clone(), &ds);
+    let safe = "uservar";
+    let ds2: Vec<VarDecl> = ds.iter().map(|d| VarDecl { name: if d.name == aux { safe.into() } else { d.name.clone() }, ty: d.ty }).collect();
+    let cons2: Vec<Constraint> = cons.iter().map(|c| Constraint::new(rename(c.lhs(), aux, safe), c.constraint_type(), rename(c.rhs(), aux, safe), c.name().to_string())).collect();
+    let m2 = gen_model::build(OptimizationType::Max, v("y"), cons2, &ds2);
+    let mut c = crate::props::c01::one(&m, "aux-collision", "c08");
+    let a = Linearizer::linearize(m);
+    let b = Linearizer::linearize(m2);
+    match (&a, &b) {
+        (Ok(la), Ok(lb)) if la.variables().len() != lb.variables().len() => {
+            c.impl_violation = Some(format!("a user variable named {} was merged with the compiler's auxiliary of the same name: {} variables instead of {}", aux, la.variables().len(), lb.variables().len()));
+        }
+        (Err(LinearizationError::VarAlreadyDeclared(_)), Ok(_)) => { c.tags.push("collision-rejected".into()); }
+        _ => {}
+    }
+    c
+}
+
+fn check_missing_bounds(m: &Model, c: &mut Case) {
+    // `MissingFiniteBounds` must name variables whose derived range really is not finite
+    if let Err(LinearizationError::MissingFiniteBounds { variables, .. }) = Linearizer::linearize(m.clone()) {
+        let rep = rooc::verif_hooks::linearizer_bounds(m.domain(), m.constraints());
+        for v in &variables {
+            if let Some((_, lo, hi)) = rep.variables.iter().find(|(n, _, _)| n == v) {
+                if lo.is_finite() && hi.is_finite() {
+                    c.impl_violation = Some(format!("MissingFiniteBounds names {} whose derived range [{}, {}] is finite", v, lo, hi));
+                }
+            }
+        }
+        if variables.is_empty() { c.tags.push("missing-bounds-none-identified".into()); }
+    }
+}
+
 pub fn generate(seed: u64, n: usize, thorough: bool, corpus: Option<&str>) -> Vec<Case> {
-    crate::props::c01::generate_for("c08", seed.wrapping_add(2000), n, thorough, corpus)
+    let mut out = crate::props::c01::generate_for("c08", seed.wrapping_add(2000), n, thorough, corpus);
+    let mut r = Rng::new(seed ^ 0xC08).fork();
+    for _ in 0..(n / 10).max(20) { out.push(collision_case(&mut r)); }
+    // the missing-bounds contract on a dedicated unbounded stream
+    let cfg = ModelCfg { max_vars: 3, depth: 2, logic: false, piecewise: true, unbounded: true, fractional: false, strict_cmp: false, hostile: false };
+    for _ in 0..(n / 5).max(40) {
+        let (m, _) = gen_model::model(&mut r, &cfg);
+        let mut c = crate::props::c01::one(&m, "missing-bounds", "c08");
+        check_missing_bounds(&m, &mut c);
+        out.push(c);
+    }
+    let _ = sx::num;
+    out
 }
